@@ -86,6 +86,8 @@ fn main() {
         return;
     }
     sys::install_panic_hook();
+    // applications commonly enable logging: make the crate's log statements evaluate their arguments
+    log::set_max_level(log::LevelFilter::Trace);
     if a.prop == "replay" {
         let path = std::env::args().nth(2).unwrap_or_default();
         std::process::exit(replay::run(&path));
@@ -115,6 +117,16 @@ fn main() {
         "C15" => mon_text::run_c15(&a, &mut rep),
         "C16" => mon_text::run_c16(&a, &mut rep),
         "C17" => mon_text::run_c17(&a, &mut rep),
+        "dbg-micro" => {
+            let mut rng = util::Rng::new(5);
+            let mut m = std::collections::BTreeMap::new();
+            for idx in 0..200000u64 {
+                let (c, info) = genp::gen_micro(&mut rng, idx);
+                *m.entry((info.template, c.class.clone())).or_insert(0) += 1;
+            }
+            eprintln!("{m:?}");
+            return;
+        }
         #[cfg(feature = "std")]
         "dbg-long" => {
             dbg_long(&a);
